@@ -5,16 +5,17 @@ from harness import editrun as E
 
 WHAT = {
  'D10': 'line breaks in new text are not placed where they were requested: the lines after the first become new paragraphs AFTER the whole current paragraph, and new text that consists of line breaks only is dropped (accepted text differs from the requested text)',
- 'D26': 'a target that partially overlaps a pending insertion (or spans several) is handled by the nested-insertion shortcut and scrambles text / nests marks',
+ 'D26': 'an edit that starts inside a pending insertion is handled by the nested-insertion shortcut: the whole insertion is rejected and re-inserted as plain text of the first run (formatting, line breaks, further lines and - with a partial overlap - text are lost or scrambled)',
  'D30': 'a target spanning several paragraphs or runs that are not direct children of one paragraph scrambles the paragraphs / nests marks',
  'D34': 'an insertion point adjacent to a tracked change is anchored on the run inside that change: w:ins nested in another mark',
  'D37': 'occupied ranges are kept in coordinates of a map that is rebuilt after every applied edit: duplicate / overlapping targets after an applied edit are not recognised as conflicts',
+ 'D51': 'overlaps between heuristic edits are decided on raw-view match positions only: an edit that is located through the accepted view (its target spans a tracked change or a comment wrapper) has no planned range, so a second edit whose target overlaps it is applied as well',
  'D39': 'a later edit of a batch is matched against the metadata text ([Chg:n] author, wrappers) that an earlier edit of the same batch added to the raw view',
  'D40': 'a target that also occurs in virtual text of the raw view (comment metadata, author names, markers) is matched there first; the edit is applied next to that place',
  'D46': 'an edit whose new text differs from its target only by line breaks is reported applied but leaves nothing except an empty w:ins; the comment it carries is anchored there and never displayed',
  'D32': 'when trimming leaves only virtual markers as target no run is resolved and the edit is reported skipped',
 }
-REGION = {3: 'D34', 4: 'D30', 5: 'D26'}     # (code 2 = heading level above 9: never generated)
+REGION = {3: 'D34', 4: 'D30'}     # (code 2 = heading level above 9: never generated; nested-insertion replacements are inside the model: 'nn')
 
 def meta_like(t):
     """the target also occurs in text the engine itself generates for a tracked change of this session (wrappers, [Chg:n] author)"""
@@ -25,6 +26,8 @@ def classify(c, fail, exception_ok=False, meta_region=False, block_region=False)
     """-> (fail, known) per the model's Outside code for this input"""
     if not fail: return (None, None)
     code = c.get('outside', 0)
+    if code == 0 and c.get('nn', 0) > 0:      # the batch went through the nested-insertion shortcut (modelled; C01's documented exception, finding D26 elsewhere)
+        return (None, None) if exception_ok else (fail, ('D26', WHAT['D26']))
     if code == 0:
         if block_region and any(block_text(e[1]) for e in c.get('edits', [])): return (fail, ('D10', WHAT['D10']))
         if meta_region and len(c.get('edits', [])) > 1 and any(meta_like(e[0]) for e in c['edits']): return (fail, ('D39', WHAT['D39']))
@@ -72,7 +75,7 @@ def in_virtual(c, raw):
 def judge_C08(c, raw, clean, raw_out):
     f = E.oracle_C08(c)
     if f and c.get('outside', 0) == 0 and 'subset' in f and in_virtual(c, raw): return [(f, ('D40', WHAT['D40']))]
-    if f and c.get('outside', 0) == 0 and 'subset' in f and conflicting(c, raw, clean): print('D37CASE', c['edits'], f[:300]); return [(f, ('D37', WHAT['D37']))]
+    if f and c.get('outside', 0) == 0 and 'subset' in f and conflicting(c, raw, clean) and any(e[0] and raw.count(e[0]) == 0 for e in c['edits']): return [(f, ('D51', WHAT['D51']))]
     return [classify(c, f, meta_region=True)]
 def judge_C09(c, raw, clean, raw_out): return [classify(c, E.oracle_C09(c))]
 def only_breaks(c):
